@@ -377,3 +377,50 @@ func H_C05_options() {
 	vHybridCheckOpt(h, q, texts, filters, k, fkind, cfg, o)
 	vCover("ran")
 }
+
+func init() { vHarnesses["H_C05_passthrough"] = H_C05_passthrough }
+
+// an approximate vector index under the hybrid: WithNProbes reaches the IVF search and WithEfSearch the HNSW search
+// (the hybrid's own defaults otherwise), so the vector candidates are what that index returns for the same setting
+// inside the filtered set.  Four documents, concrete vectors next to two centroids, three queries, k any int >= 1.
+func H_C05_passthrough() {
+	var vi VectorIndex
+	var o vHybridOpts
+	if vChoose("vector_index", 2) == 0 {
+		ivf, _ := NewIVFIndex(1, 2, L2Squared)
+		ivf.centroids = [][]float32{{0}, {8}}
+		ivf.trained = true
+		vi = ivf
+		o.nProbes = []int{0, 1, 2, 5, -1}[vChoose("nprobes", 5)]
+		vTag("ivf")
+	} else {
+		hn, _ := NewHNSWIndex(1, L2Squared, 2, 8, 8)
+		vi = hn
+		switch vChoose("ef", 3) {
+		case 1:
+			o.efSearch = 1
+		case 2:
+			hn.SetEfSearch(2)
+			o.efSearch = 6
+		}
+		vRandBudget(0)
+		vTag("hnsw")
+	}
+	h := NewHybridSearchIndex(vi, NewBM25SearchIndex(), NewRoaringMetadataIndex())
+	for i, x := range []float32{0.5, 7.5, -1, 9.25} {
+		vAssert(h.AddWithID(uint32(20-3*i), []float32{x}, []string{"fox dog", "dog", "fox", "cat"}[i], map[string]interface{}{"c": []string{"x", "x", "y", "x"}[i]}) == nil, "add-ok")
+	}
+	q := vCopy([][]float32{{0.25}, {6}, {-4}}[vChoose("query", 3)])
+	var filters []Filter
+	if vChoose("filter", 2) == 1 {
+		filters = []Filter{Eq("c", "x")}
+	}
+	var texts []string
+	if vChoose("with_text", 2) == 1 {
+		texts = []string{"dog"}
+	}
+	k := vInt("k")
+	vAssume(k >= 1)
+	vHybridCheckOpt(h, q, texts, filters, k, WeightedSumFusion, &FusionConfig{VectorWeight: 0.5, TextWeight: 2, K: 60}, o)
+	vCover("ran")
+}
